@@ -164,12 +164,18 @@ func (rt *runtime) cmplEvaluateNodeBinaryExpression(node *nodeBinaryExpression) 
 	// GetValue of the right operand precedes every conversion of the operands (11.5 - 11.10 step 4)
 	rightValue := rt.cmplEvaluateNodeExpression(node.right).resolve()
 
+	// The operator is applied here: errors it raises (in, instanceof) and the valueOf/toString
+	// calls it makes are positioned at the expression, not at the last call of this function.
+	rt.scope.frame.offset = int(node.idx)
+
 	return rt.calculateBinaryExpression(node.operator, leftValue, rightValue)
 }
 
 func (rt *runtime) cmplEvaluateNodeBinaryExpressionComparison(node *nodeBinaryExpression) Value {
 	left := rt.cmplEvaluateNodeExpression(node.left).resolve()
 	right := rt.cmplEvaluateNodeExpression(node.right).resolve()
+
+	rt.scope.frame.offset = int(node.idx)
 
 	return boolValue(rt.calculateComparison(node.operator, left, right))
 }
